@@ -8,6 +8,16 @@
 // be equal. The iteration order of the appList maps in mount.go is owned by the harness
 // (overlay.spec, verifrt.MapOrder): P is rebuilt under every order that deviates from the
 // default in <= 1 (quick) / <= 2 (thorough) picks and must answer identically.
+//
+// Program steps after start-up (late-registration family, enum.go): trees with >= 2 top-level
+// items, >= 1 mount and leaf letters that include a verb other than GET are also run as two-phase
+// programs, one per split of the top-level sequence: the first part is registered, the application
+// is started and serves every request once, then the second part (routes of every kind, groups of
+// routes) is registered on the running root app, app.RebuildTree() is called and every
+// request is served again. P (mounts) and P' (groups) are built with the same step sequence and
+// their second-round observations must be equal (clause late-registration-mount-vs-group).
+// Splits whose late part contains a mount are run and classified but NOT judged: mounting a sub-app
+// on a running application is specified neither by the statement nor by the docs.
 package main
 
 import (
@@ -27,12 +37,17 @@ import (
 )
 
 const nWorkers = 16
+
+// onlyLate is a diagnostic switch, never set by ./check: explore the late-registration family only.
+var onlyLate = os.Getenv("C04_ONLY_LATE") == "1"
+
 const fullShrinkCap = 150
 
 type pendingV struct {
 	clause, kind string
 	ci           int
 	leaf         int
+	late         int // late-registration clause: number of top-level items registered after start-up
 }
 
 type sigInfo struct {
@@ -49,7 +64,8 @@ type worker struct {
 	quick bool
 
 	oG, oP, oL, oF, oR, oD obsSet
-	sA, sB, sC             obsSet
+	oQ, oH                 obsSet // two-phase programs: P (mounts) and P' (groups)
+	sA, sB, sC, sD         obsSet
 
 	outc [4][4][2]int64
 
@@ -60,6 +76,8 @@ type worker struct {
 	bySig       map[string]*sigInfo
 	fullShrinks int
 	maxPairs    int
+	lateSamples int
+	mixedAt     int  // request index of the last two-phase run at which a spliced and a late handler ran (-1 = none)
 	allDev      bool // classification: explore the deviating map orders under every configuration
 }
 
@@ -69,9 +87,9 @@ func main() {
 	treeFlag := flag.String("show", "", "with -only: also print the observations of every program")
 	treeText := flag.String("tree", "", `evaluate the tree given in text form, e.g. [mount("/:t"){GET "/x" reply}], and print every differing request`)
 	r := core.Start("C04")
-	pol := quickPolicy()
+	pol, lpol := quickPolicy(), quickLatePolicy()
 	if !r.Quick() {
-		pol = thoroughPolicy()
+		pol, lpol = thoroughPolicy(), thoroughLatePolicy()
 	}
 	if *countOnly {
 		total, classes := enumerate(pol, func(int64) bool { return false }, nil)
@@ -79,6 +97,12 @@ func main() {
 			fmt.Println(c)
 		}
 		fmt.Println("total trees:", total)
+		ltotal, lclasses := enumerate(lpol, func(int64) bool { return false }, nil)
+		fmt.Println("late-registration family:")
+		for _, c := range lclasses {
+			fmt.Println(c)
+		}
+		fmt.Println("total trees:", ltotal)
 		return
 	}
 	if *treeText != "" || r.Replay != "" {
@@ -97,23 +121,37 @@ func main() {
 				defer pprof.StopCPUProfile()
 			}
 		}
-		runWorker(r, pol)
+		runWorker(r, pol, lpol)
 		return
 	}
 	total, classes := enumerate(pol, func(int64) bool { return false }, nil)
+	ltotal, lclasses := enumerate(lpol, func(int64) bool { return false }, nil)
 	if crashed := r.SpawnWorkers(nWorkers, []string{"GOMAXPROCS=1"}); len(crashed) > 0 {
 		core.Fatal("workers crashed: %v", crashed)
 	}
-	if r.P.Counters["trees"] != total && len(r.P.Caps) == 0 {
+	if r.P.Counters["trees"] != total && len(r.P.Caps) == 0 && !onlyLate {
 		core.Fatal("enumeration mismatch: workers evaluated %d trees, enumeration has %d", r.P.Counters["trees"], total)
 	}
+	if r.P.Counters["late_family_trees"] != ltotal && len(r.P.Caps) == 0 {
+		core.Fatal("enumeration mismatch: workers evaluated %d trees of the late-registration family, enumeration has %d", r.P.Counters["late_family_trees"], ltotal)
+	}
+	if len(r.P.Caps) == 0 && (r.P.Counters["late_evaluations"] == 0 || r.P.Counters["late_nontrivial"] == 0 || r.P.Counters["late_evaluations_with_spliced_and_late_handler_in_one_request"] == 0) {
+		core.Fatal("vacuous exploration: no two-phase program ran a handler registered after start-up: %v", r.P.Counters)
+	}
 	// anti-vacuity: the mechanisms under test were exercised
-	if len(r.P.Caps) == 0 && (r.P.Counters["mount_evaluations_with_inner_handler_run"] == 0 || r.P.Counters["map_order_deviations_run"] == 0 || r.P.Counters["nontrivial"] == 0) {
+	if len(r.P.Caps) == 0 && !onlyLate && (r.P.Counters["mount_evaluations_with_inner_handler_run"] == 0 || r.P.Counters["map_order_deviations_run"] == 0 || r.P.Counters["nontrivial"] == 0) {
 		core.Fatal("vacuous exploration: no mounted handler ran or no deviating map order was explored: %v", r.P.Counters)
 	}
-	var classText []string
+	var classText, lclassText []string
 	for _, c := range classes {
 		classText = append(classText, c.String())
+	}
+	for _, c := range lclasses {
+		lclassText = append(lclassText, c.String())
+	}
+	var lcfgText []string
+	for _, ci := range lpol.phasedCfgs {
+		lcfgText = append(lcfgText, cfgs[ci].String())
 	}
 	dev := "<= 1 non-default pick, under the all-off and the all-on configuration"
 	if !r.Quick() {
@@ -125,14 +163,16 @@ func main() {
 		Level:      "exploration",
 		Exhaustive: true,
 		Coverage: map[string]any{
-			"evaluations":         r.P.Counters["evaluations"],
-			"distinct_nontrivial": r.P.Counters["nontrivial"],
+			"evaluations":         r.P.Counters["evaluations"] + r.P.Counters["late_evaluations"],
+			"distinct_nontrivial": r.P.Counters["nontrivial"] + r.P.Counters["late_nontrivial"],
 			"unspecified_skipped": unspec,
 			"unspecified_classes": map[string]any{
-				"what":     "Route().Path seen by a handler is spelled differently although trace, Params, status, Allow and body agree (counters 'route-path-spelling <clause> <class>'); not part of the answer to a request, hence not judged",
-				"examples": spell,
+				"what":       "Route().Path seen by a handler is spelled differently although trace, Params, status, Allow and body agree (counters 'route-path-spelling <clause> <class>'); not part of the answer to a request, hence not judged",
+				"examples":   spell,
+				"late_mount": "two-phase programs whose late part contains a mount (plain, from a group, or nested): neither the statement nor the docs (docs/api/app.md RebuildTree: dynamic registration of routes, 'with caution', development mode) say anything about mounting a sub-app on a running application; such programs are run, classified (outcomes 'unspecified: sub-app mounted after start-up ...', counters late_mount_after_startup_programs_*) and their second-round requests counted in unspecified_skipped, but never judged",
 			},
-			"rule": "one evaluation = one (program tree, routing configuration) pair: the tree is built as P (mounts as written; also with the sub-app mounted first and populated afterwards), P' (every mount replaced by a group with the mount prefix at the same position), P'' (every group prefix folded into the full path) and P''' (Route() chains), every request derived from the tree (each full pattern instantiated with v/w, with and without trailing slash, other letter case, %78 for x, below-prefix and glued-suffix paths for middleware, every container prefix with and without slash, '/' and one foreign path) x {GET, POST} is sent to each program and trace+Params+status+Allow+body are compared P~P', P'~P'', P'''~P''; P is also rebuilt under every deviating appList map iteration order (" + dev + ") and compared with the default order. Trees: every skeleton (<= 3 items per level, depth and size bounds below, >= 1 container) x every labelling with the alphabets of its size class; all (tree, configuration) pairs are distinct by construction. An evaluation is non-trivial when, in P', at least one handler registered inside a container ran (the prefix mechanism decided the answer); counted in the loop.",
+			"rule": "one evaluation = one (program tree, routing configuration) pair: the tree is built as P (mounts as written; also with the sub-app mounted first and populated afterwards), P' (every mount replaced by a group with the mount prefix at the same position), P'' (every group prefix folded into the full path) and P''' (Route() chains), every request derived from the tree (each full pattern instantiated with v/w, with and without trailing slash, other letter case, %78 for x, below-prefix and glued-suffix paths for middleware, every container prefix with and without slash, '/' and one foreign path) x {GET, POST} is sent to each program and trace+Params+status+Allow+body are compared P~P', P'~P'', P'''~P''; P is also rebuilt under every deviating appList map iteration order (" + dev + ") and compared with the default order. Trees: every skeleton (<= 3 items per level, depth and size bounds below, >= 1 container) x every labelling with the alphabets of its size class; all (tree, configuration) pairs are distinct by construction. An evaluation is non-trivial when, in P', at least one handler registered inside a container ran (the prefix mechanism decided the answer); counted in the loop. " +
+				"Late-registration family (program steps after start-up): a further evaluation = one (two-phase program, routing configuration) pair, where a two-phase program is a tree of the late-registration family (>= 2 top-level items, >= 1 mount, leaf letters with the verb POST besides GET/USE/ALL) together with a split of its top-level sequence into a non-empty part registered before start-up and a non-empty part (routes of every kind and groups of routes; splits whose late part contains a mount are unspecified and not judged, see unspecified_classes) registered on the root app after app.Handler() ran the start-up pass and every request was served once; app.RebuildTree() follows and every request is served again; the second-round observations of P (mounts) and P' (groups, same step sequence) must be equal (requests on which the one-phase P and P' already differ are left to the mount-vs-group clause, which is also evaluated on every tree of this family under all configurations). Such an evaluation is non-trivial when, in P', a handler registered after start-up ran in the second round; counted in the loop.",
 			"bounds": map[string]any{
 				"depth":                fmt.Sprintf("%d (quick tier: depth 2 plus the two-level container letters mount-from-group group(a){mount(b){..}} and mount-in-mount mount(a){mount(b){..}})", pol.depth),
 				"max_items_per_level":  3,
@@ -146,6 +186,14 @@ func main() {
 				"patterns":             patRank,
 				"prefixes":             prefixRank,
 				"map_order_deviations": dev,
+				"late_registration_family": map[string]any{
+					"size_classes":         lclassText,
+					"trees":                ltotal,
+					"leaf_letters":         "kinds GET, POST, USE, ALL x patterns '', '/', '/x', '/:id', '/*' x reply/next (the first n of a fixed order per size class)",
+					"splits":               "every split of the top-level item sequence with >= 1 item before and >= 1 item after start-up",
+					"configs_of_two_phase": lcfgText,
+					"refresh":              "app.RebuildTree() after the late registrations (docs/api/app.md)",
+				},
 			},
 		},
 		Assumptions: []string{
@@ -155,6 +203,8 @@ func main() {
 			"Route().Path spelling seen by handlers is compared only when everything else is equal and differences are counted as unspecified (counters route-path-spelling ...), the statement speaks about answers to requests",
 			"Register.All (Route(prefix).All) is taken as the middleware registration it is documented to be, i.e. the Route()-chain counterpart of Use",
 			"map iteration inside mount.go (mount, Group.mount, appendSubAppLists, processSubAppsRoutes) follows verifrt.MapOrder (keys snapshot before the loop); orders are explored up to the stated number of deviations from the sorted default; generateAppListKeys' range is not owned (its result is sorted and only feeds Render's view lookup)",
+			"registration after start-up is judged for routes and groups of routes only (documented: app.RebuildTree()); a sub-app mounted after start-up is documented nowhere and is treated as unspecified",
+			"two-phase programs: start-up is app.Handler() followed by one pass over the whole request list; late items are registered on the root app only (not on groups or sub-apps created before start-up); the routing tree is refreshed with app.RebuildTree() and the request handler obtained at start-up keeps being used",
 			"a violation is attributed to the smallest sub-program that still shows the same kind of difference (greedy minimisation: delete, hoist, mount->group, simpler prefix/leaf); counts are per (tree, configuration, clause, kind of difference)",
 		},
 		MinOutcomes: 4,
@@ -169,7 +219,7 @@ func newWorker(r *core.Run) *worker {
 	return w
 }
 
-func runWorker(r *core.Run, pol policy) {
+func runWorker(r *core.Run, pol, lpol policy) {
 	debug.SetGCPercent(100)
 	w := newWorker(r)
 	limit := 6 * time.Minute
@@ -180,7 +230,7 @@ func runWorker(r *core.Run, pol policy) {
 	capped := false
 	var n int64
 	enumerate(pol, func(idx int64) bool {
-		if !r.Shard(int(idx % (1 << 30))) {
+		if onlyLate || !r.Shard(int(idx%(1<<30))) {
 			return false
 		}
 		if capped {
@@ -195,6 +245,24 @@ func runWorker(r *core.Run, pol policy) {
 		return true
 	}, func(idx int64, t *tree) {
 		w.evalTree(idx, t)
+	})
+	// late-registration family (shards continue the index space of the first family)
+	enumerate(lpol, func(idx int64) bool {
+		if !r.Shard(int(idx % (1 << 30))) {
+			return false
+		}
+		if capped {
+			return false
+		}
+		n++
+		if n%64 == 0 && (time.Now().After(deadline) || r.Expired()) {
+			capped = true
+			r.Cap("wall-clock limit reached before all trees were explored")
+			return false
+		}
+		return true
+	}, func(idx int64, t *tree) {
+		w.evalLateTree(idx, t, lpol)
 	})
 	w.flush()
 	r.Merge(w.l.P)
@@ -311,6 +379,128 @@ func (w *worker) evalTree(idx int64, t *tree) {
 		si := w.classify(t, ti, p)
 		w.record(si)
 	}
+}
+
+// evalLateTree evaluates one tree of the late-registration family: the one-phase P and P' under
+// every configuration (mount-vs-group), and every two-phase program of the tree (one per split of
+// the top-level sequence) under the configurations of the policy.
+func (w *worker) evalLateTree(idx int64, t *tree, lpol policy) {
+	ti := analyse(t)
+	w.l.Add("late_family_trees", 1)
+	if !ti.hasMount {
+		w.l.Add("late_family_trees_without_mount_skipped", 1) // P and P' are the same program
+		return
+	}
+	w.pending = w.pending[:0]
+	for ci, c := range cfgs {
+		phased := false
+		for _, pc := range lpol.phasedCfgs {
+			phased = phased || pc == ci
+		}
+		for k := range w.seenKinds {
+			delete(w.seenKinds, k)
+		}
+		w.e.runAll(t, ti, c, progGroup, nil, &w.oG)
+		w.e.runAll(t, ti, c, progMount, nil, &w.oP)
+		w.l.Add("late_family_one_phase_runs", 1)
+		w.compare(clMount, ci, &w.oP, &w.oG)
+		if !phased {
+			continue
+		}
+		tt := *t
+		for tt.Late = 1; tt.Late < len(t.Items); tt.Late++ {
+			if tt.lateHasMount() {
+				// UNSPECIFIED: a sub-app mounted on a running application. The statement does not speak
+				// about registration after start-up and the docs describe dynamic registration of
+				// routes only: run, classify, never judge.
+				w.e.runPhased(&tt, ti, c, progGroup, &w.oH)
+				w.e.runPhased(&tt, ti, c, progMount, &w.oQ)
+				w.l.Add("late_mount_after_startup_programs_unspecified", 1)
+				w.l.Add("unspecified_skipped", int64(w.oQ.n()))
+				if bytes.Equal(w.oQ.buf, w.oH.buf) {
+					w.l.P.Outcomes["unspecified: sub-app mounted after start-up, answers like the group spelling"]++
+				} else {
+					w.l.P.Outcomes["unspecified: sub-app mounted after start-up, answers differ from the group spelling"]++
+					w.l.Add("late_mount_after_startup_programs_answering_differently", 1)
+				}
+				continue
+			}
+			w.l.Add("late_evaluations", 1)
+			w.e.sawInside = false
+			w.e.runPhased(&tt, ti, c, progGroup, &w.oH)
+			if w.e.sawInside {
+				w.l.Add("late_nontrivial", 1)
+			}
+			w.tally(&w.oH)
+			w.e.runPhased(&tt, ti, c, progMount, &w.oQ)
+			w.comparePhased(ci, tt.Late, ti.lateMask(&tt), ti.insideM)
+		}
+	}
+	if w.r.Worker <= 0 && w.lateSamples < 2 && idx >= int64(1500+14000*w.lateSamples) && w.mixedAt >= 0 {
+		// sample: the last two-phase program of this tree, at a request that ran a spliced and a late handler
+		w.lateSamples++
+		tt := *t
+		tt.Late = len(t.Items) - 1
+		m, p := reqAt(ti, w.mixedAt)
+		w.l.Sample(map[string]any{"two_phase_program": tt.String(), "config": cfgs[lpol.phasedCfgs[len(lpol.phasedCfgs)-1]].String(),
+			"requests_per_round": len(ti.paths) * len(methods), "request": m + " " + p + " (second round)",
+			"observation_P": string(w.oQ.get(w.mixedAt)), "observation_P'": string(w.oH.get(w.mixedAt))})
+	}
+	for _, p := range w.pending {
+		tt := *t
+		tt.Late = p.late
+		si := w.classify(&tt, ti, p)
+		w.record(si)
+	}
+}
+
+// comparePhased: second-round observations of the two-phase P (oQ) and P' (oH); a request is
+// attributed to this clause only when the one-phase P and P' answer it alike (otherwise the
+// mount-vs-group clause already reports the request).
+func (w *worker) comparePhased(ci, late int, lateMask, mountMask uint32) {
+	n := w.oQ.n()
+	w.l.Add("request_comparisons", int64(n))
+	mixed := false
+	w.mixedAt = -1
+	for i := 0; i < n; i++ {
+		a, b := w.oQ.get(i), w.oH.get(i)
+		if !mixed && traceTouches(b, lateMask) && traceTouches(b, mountMask&^lateMask) {
+			mixed = true
+			w.mixedAt = i
+		}
+		if bytes.Equal(a, b) || !bytes.Equal(w.oP.get(i), w.oG.get(i)) {
+			continue
+		}
+		w.l.Add("mismatching_requests", 1)
+		kind, _, leaf := kindOf(parseObs(a), parseObs(b))
+		key := clPhased + "|" + kind + "|" + itoa(late)
+		if w.seenKinds[key] {
+			continue
+		}
+		w.seenKinds[key] = true
+		w.pending = append(w.pending, pendingV{clause: clPhased, kind: kind, ci: ci, leaf: leaf, late: late})
+	}
+	if mixed {
+		// anti-vacuity: one request ran a handler spliced from a sub-app at start-up AND a handler registered afterwards
+		w.l.Add("late_evaluations_with_spliced_and_late_handler_in_one_request", 1)
+	}
+}
+
+// traceTouches tells whether the handler trace of observation b names a leaf of mask.
+func traceTouches(b []byte, mask uint32) bool {
+	bar := bytes.IndexByte(b, '|')
+	if bar < 0 {
+		return false
+	}
+	tr := b[:bar]
+	for i := 0; i < len(tr); i++ {
+		if (i == 0 || tr[i-1] == ';') && i+1 < len(tr) && tr[i+1] == ':' && tr[i] >= '0' && tr[i] <= '9' {
+			if mask&(1<<(tr[i]-'0')) != 0 {
+				return true
+			}
+		}
+	}
+	return false
 }
 
 // plans lists the deviating map orders: every single non-default pick; in the thorough tier,
@@ -448,6 +638,25 @@ func (w *worker) evalClause(t *tree, c rcfg, clause string, fn func(h diffHit, k
 				break
 			}
 		}
+	case clPhased:
+		if !t.phased() || t.lateHasMount() { // a mount after start-up is unspecified, not judged
+			return
+		}
+		w.e.runPhased(t, ti, c, progMount, &w.sA)
+		w.e.runPhased(t, ti, c, progGroup, &w.sB)
+		w.e.runAll(t, ti, c, progMount, nil, &w.sC)
+		w.e.runAll(t, ti, c, progGroup, nil, &w.sD)
+		for i := 0; i < w.sA.n(); i++ {
+			a, b := w.sA.get(i), w.sB.get(i)
+			if bytes.Equal(a, b) || !bytes.Equal(w.sC.get(i), w.sD.get(i)) {
+				continue
+			}
+			kind, detail, _ := kindOf(parseObs(a), parseObs(b))
+			m, p := reqAt(ti, i)
+			if fn(diffHit{req: m + " " + p + " (second round, after the late registrations)", impl: string(a), ref: string(b), detail: detail}, kind) {
+				break
+			}
+		}
 	case clFlat:
 		w.e.runAll(t, ti, c, progGroup, nil, &w.sA)
 		w.e.runAll(t, ti, c, progFlat, nil, &w.sB)
@@ -509,19 +718,49 @@ func (w *worker) classify(t *tree, ti *treeInfo, p pendingV) *sigInfo {
 	//    the violation is attributed to the first chain that shows the same kind of difference,
 	//    else to the first chain that violates the clause at all (its simplest manifestation)
 	var chains []*tree
-	if p.leaf >= 0 && p.leaf < len(ti.leaves) && len(ti.leaves[p.leaf].chain) > 0 {
+	if p.clause == clPhased {
+		// two-item sub-programs: one chain registered before start-up and one registered afterwards
+		// (a chain = a leaf with its enclosing containers, or a container chain without leaves)
+		type ch struct {
+			t    *tree
+			late bool
+		}
+		var all []ch
+		add := func(c *tree, top int, first bool) {
+			if first {
+				all = append([]ch{{c, top >= t.split()}}, all...)
+			} else {
+				all = append(all, ch{c, top >= t.split()})
+			}
+		}
+		for i, lf := range ti.leaves {
+			add(chainTree(lf.chain, lf.n), lf.top, i == p.leaf)
+		}
+		for i, cc := range ti.containers {
+			add(chainTree(cc, nil), ti.contTop[i], false)
+		}
+		for _, a := range all {
+			for _, b := range all {
+				if !a.late && b.late {
+					chains = append(chains, &tree{Items: []*node{a.t.Items[0], b.t.Items[0]}, Late: 1})
+				}
+			}
+		}
+	} else if p.leaf >= 0 && p.leaf < len(ti.leaves) && len(ti.leaves[p.leaf].chain) > 0 {
 		chains = append(chains, chainTree(ti.leaves[p.leaf].chain, ti.leaves[p.leaf].n))
 	}
-	for i, lf := range ti.leaves {
-		if i != p.leaf && len(lf.chain) > 0 {
-			chains = append(chains, chainTree(lf.chain, lf.n))
+	if p.clause != clPhased {
+		for i, lf := range ti.leaves {
+			if i != p.leaf && len(lf.chain) > 0 {
+				chains = append(chains, chainTree(lf.chain, lf.n))
+			}
 		}
-	}
-	for _, ch := range ti.containers {
-		chains = append(chains, chainTree(ch, nil))
-	}
-	if len(ti.containers) > 1 && len(ti.leaves) > 0 {
-		chains = append(chains, containersOnly(t)) // the container structure alone (startup panics, map orders)
+		for _, ch := range ti.containers {
+			chains = append(chains, chainTree(ch, nil))
+		}
+		if len(ti.containers) > 1 && len(ti.leaves) > 0 {
+			chains = append(chains, containersOnly(t)) // the container structure alone (startup panics, map orders)
+		}
 	}
 	for _, kind := range []string{p.kind, ""} {
 		for _, ct := range chains {
@@ -586,8 +825,11 @@ func (w *worker) minimise(t *tree, c rcfg, clause, kind string) *sigInfo {
 		return false
 	})
 	parts := []string{clause}
-	if clause == clMount || clause == clMountCfg || clause == clMountLate || clause == clMapOrder {
+	if clause == clMount || clause == clMountCfg || clause == clMountLate || clause == clMapOrder || clause == clPhased {
 		parts = append(parts, mountClass(cur))
+	}
+	if clause == clPhased {
+		parts = append(parts, lateClass(cur))
 	}
 	parts = append(parts, kind)
 	if hit.detail != "" {
@@ -599,6 +841,7 @@ func (w *worker) minimise(t *tree, c rcfg, clause, kind string) *sigInfo {
 		clMountLate: progNames[progMountLate] + " vs " + progNames[progGroup],
 		clMountCfg:  progNames[progMountCfg] + " vs " + progNames[progGroup],
 		clMapOrder:  progNames[progMount] + " under a deviating appList map order vs the default order",
+		clPhased:    progNames[progMount] + " vs " + progNames[progGroup] + ", both built in two phases: the items after || are registered after start-up and a first pass of requests, then app.RebuildTree()",
 		clFlat:      progNames[progGroup] + " vs " + progNames[progFlat],
 		clRoute:     progNames[progRoute] + " vs " + progNames[progFlat],
 	}[clause]
@@ -654,9 +897,12 @@ func replay(r *core.Run, text string) {
 	w.allDev = true
 	fmt.Println("tree:", t)
 	fmt.Print(t.goProgram())
+	if t.lateHasMount() {
+		fmt.Println("note: a sub-app is mounted after start-up: unspecified, the late-registration clause does not judge this program")
+	}
 	bad := 0
 	for _, c := range cfgs {
-		for _, clause := range []string{clMount, clMountCfg, clMountLate, clMapOrder, clFlat, clRoute} {
+		for _, clause := range []string{clMount, clMountCfg, clMountLate, clMapOrder, clPhased, clFlat, clRoute} {
 			w.evalClause(t, c, clause, func(h diffHit, kind string) bool {
 				bad++
 				fmt.Printf("%s | %s | %s %s | %s\n    first : %s\n    second: %s\n", c, clause, kind, h.detail, h.req, h.impl, h.ref)
